@@ -155,8 +155,8 @@ class CFG:
                     es.append(('copy', l, r['p']['l']))
                 else:
                     es.append(('kill', l))
-                if not (r['k'] == 'agg' and r.get('ak') == 'adt' and 'dv' in r):
-                    es.append(('kill', ('p', l)))
+                if not (r['k'] == 'agg' and r.get('ak') == 'adt' and 'dv' in r) and not (es and es[-1][0] == 'copy' and es[-1][1] == l and isinstance(es[-1][2], int)):
+                    es.append(('kill', ('p', l)))      # (a whole-value copy carries the payload knowledge along, see _vk_step)
             t = blk['t']
             if t['k'] == 'call' and 'p' not in t['d'] and t['d']['l'] not in bad:
                 l = t['d']['l']
@@ -204,8 +204,12 @@ class CFG:
                     if e[0] in ('copy', 'flip') and e[1] in rel and e[2] not in rel:
                         rel.add(e[2])
                         changed = True
+                    if e[0] in ('copy', 'flip') and isinstance(e[1], int) and isinstance(e[2], int) and ('p', e[1]) in rel and ('p', e[2]) not in rel:
+                        rel.add(('p', e[2]))
+                        rel.add(e[2])
+                        changed = True
         # (payload keys ('p', l) are relevant when something relevant is copied from them)
-        self._vk = ([[e for e in es if e[1] in rel] for es in eff], sw, rel)
+        self._vk = ([[e for e in es if e[1] in rel or (isinstance(e[1], int) and ('p', e[1]) in rel)] for es in eff], sw, rel)
 
     def _vk_step(self, b, K):
         """knowledge after the statements and terminator of block b, given knowledge K (dict) on entry"""
@@ -221,11 +225,21 @@ class CFG:
                     K[e[1]] = K[e[2]]
                 else:
                     K.pop(e[1], None)
+                # a whole-value copy carries what is known about the payload too
+                if isinstance(e[1], int) and isinstance(e[2], int):
+                    if ('p', e[2]) in K:
+                        K[('p', e[1])] = K[('p', e[2])]
+                    else:
+                        K.pop(('p', e[1]), None)
             elif e[0] == 'flip':
                 if e[2] in K:
                     K[e[1]] = 1 - K[e[2]]
                 else:
                     K.pop(e[1], None)
+                if ('p', e[2]) in K:
+                    K[('p', e[1])] = K[('p', e[2])]
+                else:
+                    K.pop(('p', e[1]), None)
             else:
                 K.pop(e[1], None)
         return K
